@@ -5,6 +5,9 @@ CONSTANTS
   FrontEnds = {"http", "direct"}
   Containment = "root"
   TargetParse = "origin"
+  Probe = "exists"
+  Exotic = {"n0", "fn", "nf", "dn", "xff", "long"}
+  ExoticMaxLen = 2
 INVARIANT TypeOK
 INVARIANT Conforms
 INVARIANT ServedInside
